@@ -21,8 +21,8 @@ EXPLANATION = (
     "dominated by a comparison against the end of the data region (C14-VALID); every fallible read is "
     "propagated and open()/Decompressor::open propagate the failure (C14-ERR); a tail that parses as a tiny or empty directory cannot "
     "name the metadata streams, so Decompressor::open up to the propagated failure of its first metadata lookup, and that lookup "
-    "function outside its success arm, must contain no panic-capable site (C14-MISS); close() writes the directory once (C14-ONCE).  "
-    "No file is opened or parsed.")
+    "function outside its success arm, must contain no panic-capable site (C14-MISS); close() writes the directory once (C14-ONCE); every File::open of the archive module is followed by the footer "
+    "parser on every path to an Ok return (C14-OPEN).  No file is opened or parsed.")
 UNDECIDED = ("that no truncation offset yields a directory that names the metadata streams by chance "
              "(sites behind a successful lookup are listed as notes); panics inside std/zstd")
 
